@@ -17,7 +17,7 @@ def common(own: str) -> dict:
     return {'vocab': lf.vocab_json(), 'srvinfo': srvinfo, 'own': own}
 
 
-def run_scenarios(ctx: Ctx, own: str, scenarios: List[dict]) -> Dict[str, int]:
+def run_scenarios(ctx: Ctx, own: str, scenarios: List[dict], want_traces: bool = False):  # type: ignore[no-untyped-def]
     traces = trace_run.record_all('props.lookupfam', 'Recorder', scenarios, 16 if ctx.thorough else 8)
     ctx.log('recorded %d lookup traces, %d events' % (len(traces), sum(len(t['events']) for t in traces)))
     verdicts, states, trans = trace_run.validate('Trace_Lookup', traces, common(own), batch=400, par=4)
@@ -59,13 +59,31 @@ def run_scenarios(ctx: Ctx, own: str, scenarios: List[dict]) -> Dict[str, int]:
             cov['accepted'] = cov.get('accepted', 0) + v
         else:
             cov.setdefault(k, {}).update(v)
-    return out
+    return traces if want_traces else out
 
 
 def run(ctx: Ctx) -> None:
     rng = random.Random(ctx.seed * 7919 + 18)
+    from props import lookupmodel as lm
     scs = [lf.gen_lookup(rng, 'c18-%d' % k, ctx.thorough) for k in range(ctx.pick(1500, 8000))]
-    run_scenarios(ctx, 'C18', scs)
+    # binding 1: the implementation-shaped lookup model against ReturnBy / SuccessIff / CacheFirst / QuThenQm, exhaustively
+    info = lm.check_models(ctx)
+    ctx.log('Lookup model: %d distinct states, contract invariants hold; strict QM spacing reaches the schedule of finding D15'
+            % info['model_distinct'])
+    # binding 2: its behaviours replayed into the real AsyncServiceInfo.async_request
+    mscs, predicted = lm.model_scenarios(ctx, 'c18')
+    traces = run_scenarios(ctx, 'C18', scs + mscs, want_traces=True)
+    d = lm.drift(traces, predicted)
+    for x in d[:5]:
+        print('MODEL-DRIFT property=C18 scenario=%s real queries / return %s, model predicts %s (evidence, not a verdict: the '
+              'exhaustively checked model Lookup.tla no longer describes the lookup)' % (x['scenario'], x['real'], x['model']))
+    ctx.coverage.update(info)
+    ctx.coverage.update({'model_behaviours_replayed': len(mscs), 'model_drift': len(d), 'model_drift_samples': d[:3],
+                         'model_constants': 'exhaustive: 8 initial cache states x records (any subset of SRV/TXT/address, SRV before or '
+                                            'after the address) arriving at 19 instants around the query instants and the deadline, '
+                                            'timeouts 3000 and 200 ms; replay: every history over 4 instants (every 4th in the quick '
+                                            'tier) plus random walks over 17 instants'})
+    ctx.log('model behaviours replayed into the real lookup: %d, drift: %d' % (len(mscs), len(d)))
     ctx.coverage['rule'] = ('cache states = each of SRV/TXT/A/A/AAAA/other-host A absent, fresh, stale or expired-but-unpurged at the '
                             'lookup instant; missing records (also goodbyes, flush bits, re-cased names) arriving at offsets '
                             '0,1,199,200,221,320,500,1000,1300,timeout-1,timeout,timeout+1 ms; time-outs 200/3000/10000 ms; forced '
